@@ -118,7 +118,6 @@ func runRepro(name, dir string) {
 		fmt.Fprintf(os.Stderr, "harness: unknown C14_REPRO %q (have %v)\n", name, names)
 		os.Exit(ev.ExitBroken)
 	}
-	r.Floor = 0
 	var ops []string
 	answers := map[string][]string{}
 	for _, index := range []string{"inmem", "tsi1"} {
